@@ -2,10 +2,10 @@
 # try_seed.sh <seed dir name under /verif/seeded> <property> [run_check args...]
 # applies the seeded patch to /repo, runs the check, and always reverts.
 set -u
-S=/verif/seeded/$1; P=$2; shift 2
+N=$1; S=/verif/seeded/$1; P=$2; shift 2
 cd /repo && git diff --quiet || { echo "/repo not clean"; exit 9; }
 git -C /repo apply "$S/patch.diff" || { echo "patch does not apply"; exit 9; }
 cd /verif && python3 run_check.py "$P" --no-evidence "$@"; rc=$?
 git -C /repo checkout -- . 
-echo "try_seed $1 on $P -> exit $rc"
+echo "try_seed $N on $P -> exit $rc"
 exit $rc
